@@ -143,17 +143,38 @@ def run_query(src, spec, members=None):
     return out
 
 
-def run_get(src, spec):
+def run_get(src, spec, members=None, composite=False):
+    """get / all_versions of spec["id"].  `att` is attached to the source (or to each of `members`);
+    with composite=True the source is wrapped in a CompositeDataSource that carries `comp`
+    (members given: src is that composite already)."""
     try:
         att = mk_filters(spec["att"])
+        comp = mk_filters(spec.get("comp", []))
     except Exception as e:  # noqa: BLE001
         return ["CONSTRUCT " + type(e).__name__] * 2
-    src.filters = FilterSet()
-    if att:
-        src.filters.add(att)
-    a = render(lambda: src.get(spec["id"]))
-    b = render(lambda: src.all_versions(spec["id"]))
-    src.filters = FilterSet()
+    targets = members if members is not None else [src]
+    for t in targets:
+        t.filters = FilterSet()
+        if att:
+            t.filters.add(att)
+    if members is not None:
+        top = src
+        top.filters = FilterSet()
+        if comp:
+            top.filters.add(comp)
+    elif composite:
+        top = CompositeDataSource()
+        top.add_data_sources([src])
+        if comp:
+            top.filters.add(comp)
+    else:
+        top = src
+    a = render(lambda: top.get(spec["id"]))
+    b = render(lambda: top.all_versions(spec["id"]))
+    for t in targets:
+        t.filters = FilterSet()
+    if members is not None:
+        src.filters = FilterSet()
     return [a, b]
 
 
@@ -213,7 +234,10 @@ def handle(case):
                 "c2": run_query(c2, spec, members=[ma, fb]),
             })
         res["queries"] = out
-        res["gets"] = [{"mo": run_get(mo, g), "fs": run_get(fs, g)} for g in case.get("gets", [])]
+        res["gets"] = [{"mo": run_get(mo, g), "fs": run_get(fs, g),
+                        "cmo": run_get(mo, g, composite=True), "cfs": run_get(fs, g, composite=True),
+                        "c2": run_get(c2, g, members=[ma, fb])} for g in case.get("gets", [])]
+        res["filter_ops"] = list(stix2.datastore.filters.FILTER_OPS)
         return res
     finally:
         shutil.rmtree(tmp, ignore_errors=True)
